@@ -296,7 +296,43 @@ def arithmetic_shape(ctx: Ctx, rule: str) -> None:
     ctx.record(rule + "n", "CONST", h.ref, "network address of ip/prefix through ipaddress", ok3, {}, "" if ok3 else "the network address computation changed")
 
 
+def optional_not_stored(ctx: Ctx, rule: str) -> None:
+    """An optional argument (default None = "keep what is there") is never written into a parameter mapping unguarded.
+
+    change_network_address(netconfig, new_ip, new_mask=None): storing new_mask as the interfaces' netmask parameter when it
+    is None erases the netmask (the netconfig keeps it), and the next consistency check between interface and netconfig fails."""
+    n_funcs = n_sites = 0
+    bad = []
+    for f in ctx.repo.all_functions(("vmnet/network.py",)):
+        a = f.node.args
+        pos = a.posonlyargs + a.args
+        opt = {arg.arg for arg, d in zip(pos[len(pos) - len(a.defaults):], a.defaults) if isinstance(d, ast.Constant) and d.value is None}
+        opt |= {arg.arg for arg, d in zip(a.kwonlyargs, a.kw_defaults) if isinstance(d, ast.Constant) and d.value is None}
+        if not opt:
+            continue
+        stores = [s_ for s_ in ast.walk(f.node) if isinstance(s_, ast.Assign) and isinstance(s_.value, ast.Name) and s_.value.id in opt
+                  and any(isinstance(t, ast.Subscript) and "params" in ast.unparse(t.value) for t in s_.targets)]
+        if not stores:
+            continue
+        n_funcs += 1
+        ctx.touch(f.ref)
+        views = function_views(ctx, f.ref, lambda n_: isinstance(n_, ast.Subscript) and isinstance(n_.ctx, ast.Store))
+        for st in stores:
+            n_sites += 1
+            name = st.value.id
+            for v in views:
+                for i, node in v.stmts(lambda s_: s_ is st):
+                    if not norm.implies(v.premise(i, 0), norm.neg(("atom", f"{name} is None"))):
+                        bad.append((f.ref, ast.unparse(st)))
+    bad = sorted(set(bad))
+    if n_sites < 1:
+        raise AnalysisError("no store of an optional argument into a parameter mapping found in vmnet/network.py")
+    ctx.record(rule, "GUARD", "vmnet/network.py", f"stores of an optional (default None) argument into a params mapping are guarded by `is not None` ({n_sites} sites in {n_funcs} functions)", not bad,
+               {"unguarded": bad}, "" if not bad else f"{bad[0][0]}: `{bad[0][1]}` also runs when the argument is None (= keep): the parameter is erased while the netconfig keeps its value")
+
+
 def run(ctx: Ctx) -> None:
+    ctx.call(optional_not_stored, "8")
     ctx.call(integrate, "1")
     ctx.call(add_interface, "2")
     ctx.call(allocation, "3")
@@ -307,6 +343,7 @@ def run(ctx: Ctx) -> None:
 
 
 MUTANTS = [
+    ("optional-mask-stored-unguarded", "vmnet/network.py", "            interface.params[\"netmask\"] = netconfig.netmask", "            interface.params[\"netmask\"] = new_mask", "8"),
     ("join-only-same-bridge", "vmnet/network.py", "                if netconfig.can_add_interface(interface):", "                if netconfig.can_add_interface(interface) and interface.params.get(\"netdst\") == netconfig.netdst:", "x"),
     ("add-without-break", NET, "                    netconfig.add_interface(interface)\n                    break\n            else:", "                    netconfig.add_interface(interface)\n            else:", "1"),
     ("fresh-not-registered", NET, "                netconfig.add_interface(interface)\n                self.netconfigs[netconfig.net_ip] = netconfig", "                netconfig.add_interface(interface)", "1"),
